@@ -20,17 +20,17 @@ import (
 
 // Val is a symbolic Go value.
 type Val struct {
-	T     types.Type
-	E     string    // SMT term (sort = SortOf(T)); empty for tuples / pure locations
-	Tuple []Val     // multi-valued results
-	Clo   *Closure  // statically known function value
-	Loc   *Loc      // structurally known address (pointer values)
-	Fn    *ssa.Function
-	Dyn   types.Type // statically known dynamic type of an interface value
-	Cancel bool      // a context.CancelFunc created by the verified code
-	From   string    // "Type.field" the value was loaded from (selects field-level callback declarations)
-	Guard  string    // mutex that guards the object this value was loaded from (guarded_by)
-	FreshFrom string // deep-fresh message: everything reachable from it was allocated at or after this allocation mark
+	T         types.Type
+	E         string   // SMT term (sort = SortOf(T)); empty for tuples / pure locations
+	Tuple     []Val    // multi-valued results
+	Clo       *Closure // statically known function value
+	Loc       *Loc     // structurally known address (pointer values)
+	Fn        *ssa.Function
+	Dyn       types.Type // statically known dynamic type of an interface value
+	Cancel    bool       // a context.CancelFunc created by the verified code
+	From      string     // "Type.field" the value was loaded from (selects field-level callback declarations)
+	Guard     string     // mutex that guards the object this value was loaded from (guarded_by)
+	FreshFrom string     // deep-fresh message: everything reachable from it was allocated at or after this allocation mark
 }
 
 type Closure struct {
@@ -41,22 +41,22 @@ type Closure struct {
 type locKind int
 
 const (
-	locField locKind = iota // field Field of the struct object Ref (heap component H$S$f)
-	locCell                 // cell of non-struct type behind pointer Ref
-	locLocal                // non-escaping local variable
-	locElem                 // element Idx of backing array Ref
-	locGlobal               // package-level variable
+	locField  locKind = iota // field Field of the struct object Ref (heap component H$S$f)
+	locCell                  // cell of non-struct type behind pointer Ref
+	locLocal                 // non-escaping local variable
+	locElem                  // element Idx of backing array Ref
+	locGlobal                // package-level variable
 )
 
 type Loc struct {
-	Kind   locKind
-	Ref    string
-	Idx    string
-	Comp   string     // heap component name
-	Local  string     // key into State.locals
-	RootT  types.Type // type of the value stored at the root
-	Path   []int      // field path inside a struct value stored at the root
-	ElemT  types.Type
+	Kind  locKind
+	Ref   string
+	Idx   string
+	Comp  string     // heap component name
+	Local string     // key into State.locals
+	RootT types.Type // type of the value stored at the root
+	Path  []int      // field path inside a struct value stored at the root
+	ElemT types.Type
 }
 
 type deferEntry struct {
@@ -89,29 +89,29 @@ func (s *State) clone() *State {
 }
 
 type Frame struct {
-	id       int
-	fn       *ssa.Function
-	vals     map[ssa.Value]Val
-	parent   *Frame
-	free     []Val
-	args     []Val
-	entry    *State // state at function entry (for old())
-	spec     *FuncSpec
-	loops    map[*ssa.BasicBlock]*loopInfo
-	depth    int
-	names    map[string]Val // contract-bound names (params, results, lets)
-	retVals  []Val
-	callPos  token.Pos
+	id      int
+	fn      *ssa.Function
+	vals    map[ssa.Value]Val
+	parent  *Frame
+	free    []Val
+	args    []Val
+	entry   *State // state at function entry (for old())
+	spec    *FuncSpec
+	loops   map[*ssa.BasicBlock]*loopInfo
+	depth   int
+	names   map[string]Val // contract-bound names (params, results, lets)
+	retVals []Val
+	callPos token.Pos
 }
 
 type loopInfo struct {
-	header  *ssa.BasicBlock
-	ordinal int
-	spec    *LoopSpec
-	body    map[*ssa.BasicBlock]bool
-	pre     *State        // state just before the loop (for old-style references)
-	phis    []*ssa.Phi
-	decr    string        // value of the variant at the loop head
+	header     *ssa.BasicBlock
+	ordinal    int
+	spec       *LoopSpec
+	body       map[*ssa.BasicBlock]bool
+	pre        *State // state just before the loop (for old-style references)
+	phis       []*ssa.Phi
+	decr       string // value of the variant at the loop head
 	frameComps []string
 }
 
@@ -121,7 +121,7 @@ type retInfo struct {
 }
 
 type FnCtx struct {
-	modCache map[*ssa.Function]*modSet
+	modCache   map[*ssa.Function]*modSet
 	eng        *Engine
 	sc         *Script
 	ty         *Types
@@ -145,16 +145,17 @@ type FnCtx struct {
 	ranges     map[string]*rangeState
 	lastCall   map[string]Val
 	pureObs    []string
-	sliceLen   map[string]string // slice terms whose length is a literal (argument lists built at call sites)
-	guardOf    map[string]string     // map/pointer terms loaded from guarded fields -> mutex
-	guardSub   map[string]*guardInfo // sub-objects whose fields are guarded by the owner's mutex
-	writeOnce  map[string]bool       // cell refs of captured variables with a single (initialising) store
-	constCell  map[string]Val        // captured variables that are written exactly once (at their declaration): cell ref -> value
-	freshMsgs  map[string]string     // protoreflect messages made by New(): term -> fresh message ref
-	trackArgT  map[string]types.Type // types of tracked call arguments (ghost$arg$Name$k)
-	intUB      map[string]int    // small static upper bounds of integer terms (lengths of such slices after phi merges)
-	curBlock   *ssa.BasicBlock   // block being executed (innermost frame)
-	grafts     []string          // objects into which a message/list pointer was stored (deep-freshness of newer clones is void for them)
+	sliceLen   map[string]string       // slice terms whose length is a literal (argument lists built at call sites)
+	guardOf    map[string]string       // map/pointer terms loaded from guarded fields -> mutex
+	guardSub   map[string]*guardInfo   // sub-objects whose fields are guarded by the owner's mutex
+	writeOnce  map[string]bool         // cell refs of captured variables with a single (initialising) store
+	constCell  map[string]Val          // captured variables that are written exactly once (at their declaration): cell ref -> value
+	freshMsgs  map[string]string       // protoreflect messages made by New(): term -> fresh message ref
+	trackArgT  map[string]types.Type   // types of tracked call arguments (ghost$arg$Name$k)
+	trackResT  map[string]*types.Tuple // result types of tracked callees seen in the code
+	intUB      map[string]int          // small static upper bounds of integer terms (lengths of such slices after phi merges)
+	curBlock   *ssa.BasicBlock         // block being executed (innermost frame)
+	grafts     []string                // objects into which a message/list pointer was stored (deep-freshness of newer clones is void for them)
 }
 
 func (c *FnCtx) unsupported(format string, a ...any) {
@@ -977,6 +978,34 @@ func (c *FnCtx) loopHead(fr *Frame, li *loopInfo, st *State) {
 		}
 	}
 	c.havocSet(st, mods, fmt.Sprintf("loop%d", li.ordinal))
+	if c.spec != nil {
+		// lastcall(F) of a tracked callee that the loop body calls: at an arbitrary iteration it is whatever the previous
+		// iteration's call returned, not the value from before the loop
+		calledInLoop := map[string]bool{}
+		var lblocks []*ssa.BasicBlock
+		for b := range li.body {
+			lblocks = append(lblocks, b)
+		}
+		c.trackedCalledIn(lblocks, calledInLoop, 0, map[*ssa.Function]bool{})
+		for _, name := range c.spec.Track {
+			if !calledInLoop[name] {
+				continue
+			}
+			rs := c.trackResT[name]
+			if rs == nil {
+				continue
+			}
+			var nv Val
+			if rs.Len() == 1 {
+				nv = c.fresh("loopcall$"+name, rs.At(0).Type(), st)
+			} else {
+				for k := 0; k < rs.Len(); k++ {
+					nv.Tuple = append(nv.Tuple, c.fresh("loopcall$"+name, rs.At(k).Type(), st))
+				}
+			}
+			c.lastCall[name] = nv
+		}
+	}
 	for _, k := range li.frameComps {
 		c.assume(st, c.frameTerm(k, c.heapGet(st, k)))
 	}
@@ -1131,7 +1160,33 @@ func (c *FnCtx) loopMods(fr *Frame, li *loopInfo) *modSet {
 	return m
 }
 
-func localKey(fr *Frame, a *ssa.Alloc) string { return fmt.Sprintf("%d:%s:%s", fr.id, fr.fn.Name(), a.Name()) }
+// trackedCalledIn: the tracked callees (by name) that the given blocks call, directly or through callees that are inlined.
+func (c *FnCtx) trackedCalledIn(blocks []*ssa.BasicBlock, out map[string]bool, depth int, seen map[*ssa.Function]bool) {
+	for _, b := range blocks {
+		for _, ins := range b.Instrs {
+			call, ok := ins.(ssa.CallInstruction)
+			if !ok {
+				continue
+			}
+			cc := call.Common()
+			if cc.IsInvoke() {
+				out[cc.Method.Name()] = true
+				continue
+			}
+			if callee := cc.StaticCallee(); callee != nil {
+				out[callee.Name()] = true
+				if depth < 3 && !seen[callee] && c.eng.specOf(callee) == nil && c.eng.inlinable(callee) {
+					seen[callee] = true
+					c.trackedCalledIn(callee.Blocks, out, depth+1, seen)
+				}
+			}
+		}
+	}
+}
+
+func localKey(fr *Frame, a *ssa.Alloc) string {
+	return fmt.Sprintf("%d:%s:%s", fr.id, fr.fn.Name(), a.Name())
+}
 
 // instrMods over-approximates what an instruction can write.
 func (c *FnCtx) instrMods(fr *Frame, ins ssa.Instruction, m *modSet, depth int) {
